@@ -50,7 +50,7 @@ func refManageEffect(op int, p mSnap, now time.Time) mSnap {
 
 var mIDMenu = []string{"m0", "m1", "m2", " m0 ", "", "nope"}
 
-// verif:harness props=C14,C02 tier=quick native=yes weight=25
+// verif:harness props=C14,C02 tier=quick native=yes weight=25 tonly=C14
 // verif:bounds N=2 messages (thorough 3) in any state; id list of 2 (thorough 3) entries drawn with repetition from {each id, a blank-padded id, empty, absent id}; cancel/requeue/resume by id, DLQ requeue, DLQ delete; follow-up ack with the voided lease id
 func VerifC14ManageIDs() {
 	n, k := 2, 2
@@ -134,7 +134,7 @@ func clampLimit(l int) int {
 	return l
 }
 
-// verif:harness props=C14 tprops=C02 tier=quick native=yes weight=60
+// verif:harness props=C14 tier=quick native=yes weight=60
 // verif:bounds N=2 messages, any states, symbolic route r0|r1 and target t0|t1, symbolic received_at; filter: no route / route / route+target criterion, state criterion from {none, queued, dead, canceled} (thorough: all six), limit from {0,1} (thorough {0,1,1001} and preview_only on/off); cancel/requeue/resume by filter
 func VerifC14FilterCriteria() {
 	manageFilterCore(true)
